@@ -142,6 +142,10 @@ func vfhC05Respell() {
 	vfAssert(err != nil, "a trailing token is rejected")
 	_, err = UnmarshalWKT(txt+")", NoValidate{})
 	vfAssert(err != nil, "a trailing parenthesis is rejected")
+	for _, junk := range []string{" 08", " 1e", " 0x", " 1__0", " 7", " ,"} {
+		_, err = UnmarshalWKT(txt+junk, NoValidate{})
+		vfAssert(err != nil, "trailing input is rejected, also when the lexer cannot even tokenise it")
+	}
 	vfReach("end")
 }
 
